@@ -1,7 +1,7 @@
 (* Tie between the generated program of the v2 join goroutine (GenConcJoinV2.v, run by GoConc.v) and the hand-written machine
-   Join.jstep, variant JoinV2, with a timeout (interval > 0: loop(); the loopUntimeouted() variant is not covered here).
-   Partial: the program points of Loop and of Sending/AwaitRel reached from process() (why = Full), the requests they stand for,
-   and the steps In (both outcomes), Tick without expiry, Out (copy mode and no-copy mode), Rel. *)
+   Join.jstep, variant JoinV2: every model pc is a program point, every case of jstep is a move of the program (internal
+   steps and the requests with the answers that the event stands for; the clock is read at the time of the event).
+   Both loops are covered: loop() (interval > 0, mode MT) and loopUntimeouted() (interval = 0, mode MU). *)
 From Coq Require Import List NArith ZArith Bool Lia.
 From Cqos Require Import Join GoSem GoConc GenJoinV2 GenConcJoinV2.
 Import ListNotations.
@@ -21,65 +21,95 @@ Definition sel_alt (n : nat) (s : stmtT) : list stmtT :=
   match s with Select alts _ => match nth_error alts n with Some (_, b) => b | None => [] end | _ => [] end.
 Definition at_ (n : nat) (l : list stmtT) : stmtT := nth n l Return.
 
-(* ---- the program points (loop(), i.e. interval > 0) *)
-Definition mainK : list frameT :=
-  [KSeq (skipn 4 body_main); GoConc.KCall [dbody (at_ 1 body_main); dbody (at_ 0 body_main)]].
-Definition loopW := at_ 3 body_loop.
-(* inside the for of loop(): rest of the body, the loop, the activation of loop() with its two deferred statements *)
-Definition loopK (r : list stmtT) : list frameT :=
-  KSeq r :: GoConc.KLoop (wcond loopW) (wbody loopW) :: KSeq [] ::
-  GoConc.KCall [dbody (at_ 2 body_loop); dbody (at_ 0 body_loop)] :: mainK.
-Definition selS := at_ 0 (wbody loopW).
-(* after dsc.process(item) in the input alternative *)
-Definition processK (r : list stmtT) : list frameT :=
-  KSeq r :: GoConc.KCall [] :: KSeq (skipn 3 (sel_alt 1 selS)) :: loopK [].
-(* inside send() called by pass() called by process() *)
-Definition sendK (r : list stmtT) : list frameT :=
-  KSeq r :: GoConc.KCall [] :: KSeq (skipn 3 body_pass) :: GoConc.KCall [] :: processK [].
+Lemma moves_reaches l : forall a b c, reachesJ a b -> movesJ l b c -> movesJ l a c.
+Proof.
+  destruct l as [|x l]; intros a b c H M; cbn in *.
+  - eapply reaches_trans; eauto.
+  - destruct M as (cb & rq & H1 & H2 & H3). exists cb, rq. split; [eapply reaches_trans; eauto|auto].
+Qed.
 
-Definition stack (p : jpc) : list frameT :=
+(* ---- the program points *)
+Inductive mode := MT | MU.      (* loop() with the ticker / loopUntimeouted() *)
+
+Definition mainDefers : list (list stmtT) := [dbody (at_ 1 body_main); dbody (at_ 0 body_main)].
+Definition mainK (m : mode) : list frameT :=
+  match m with
+  | MT => [KSeq (skipn 4 body_main); GoConc.KCall mainDefers]
+  | MU => [KSeq (skipn 1 (if_then (at_ 2 body_main))); KSeq (skipn 3 body_main); GoConc.KCall mainDefers]
+  end.
+Definition loopW := at_ 3 body_loop.
+Definition luW := at_ 1 body_loopUntimeouted.
+(* inside the for: the rest of the body, the loop, the activation with what is still deferred *)
+Definition loopK (m : mode) (r : list stmtT) : list frameT :=
+  match m with
+  | MT => KSeq r :: GoConc.KLoop (wcond loopW) (wbody loopW) :: KSeq [] ::
+          GoConc.KCall [dbody (at_ 2 body_loop); dbody (at_ 0 body_loop)] :: mainK MT
+  | MU => KSeq r :: GoConc.KLoop (wcond luW) (wbody luW) :: KSeq [] ::
+          GoConc.KCall [dbody (at_ 0 body_loopUntimeouted)] :: mainK MU
+  end.
+Definition selS := at_ 0 (wbody loopW).
+(* where pass() returns to: process() (buffer full), the ticker alternative (timeout), the deferred call at the end *)
+Definition passCont (m : mode) (w : cause) : list frameT :=
+  match w with
+  | Timeout => KSeq [] :: KSeq (skipn 2 (sel_alt 0 selS)) :: loopK MT []
+  | Final => KSeq [] :: GoConc.KCall [] :: mainK m
+  | _ => KSeq [] :: GoConc.KCall [] ::
+         match m with MT => KSeq (skipn 3 (sel_alt 1 selS)) :: loopK MT [] | MU => loopK MU [] end
+  end.
+Definition passK (m : mode) (w : cause) (r : list stmtT) : list frameT := KSeq r :: GoConc.KCall [] :: passCont m w.
+Definition sendK (m : mode) (w : cause) (r : list stmtT) : list frameT :=
+  KSeq r :: GoConc.KCall [] :: passK m w (skipn 3 body_pass).
+
+Definition stack (m : mode) (p : jpc) (w : cause) : list frameT :=
   match p with
-  | Loop => loopK (wbody loopW)                               (* at the select *)
-  | Sending _ _ _ _ => sendK (skipn 1 body_send)               (* at `dsc.output <- item` *)
-  | AwaitRel _ => KSeq (if_then (at_ 2 body_send)) :: sendK [] (* at `<-dsc.release` *)
+  | Loop => loopK m (match m with MT => wbody loopW | MU => wbody luW end)   (* at the select / the receive *)
+  | Sending _ _ _ _ => sendK m w (skipn 1 body_send)                           (* at `dsc.output <- item` *)
+  | AwaitRel _ => KSeq (if_then (at_ 2 body_send)) :: sendK m w []             (* at `<-dsc.release` *)
   | Closed => []
   end.
+
+Definition kont_of (w : cause) : kont := match w with Final => KClose | _ => Join.KLoop end.
+Definition cause_ok (m : mode) (w : cause) : Prop :=
+  match w, m with Full, _ | Final, _ | Timeout, MT => True | _, _ => False end.
 
 Section Sim.
 Variable c : jcfg.
 Hypothesis Hv : variant_of c = JoinV2.
-Hypothesis Hivl : 0 < interval c.
+Hypothesis Hivl : 0 <= interval c.
+Definition md : mode := if interval c =? 0 then MU else MT.
 
 Definition nvals (l : list N) (b : list elem) : Prop := map fst b = map Z.of_N l.
 
 (* the receiver value and the locals against the model state *)
-Definition rel (s : jst) (dsc : Discipline) (g : G) : Prop :=
+Definition rel (s : jst) (dsc : Discipline) (g : G) (w : cause) : Prop :=
   N.to_nat (Opts_JoinSize (Discipline_opts dsc)) = jsize c /\ Opts_NoCopy (Discipline_opts dsc) = nocopy c /\
-  Opts_Timeout (Discipline_opts dsc) = timeout c /\
+  Opts_Timeout (Discipline_opts dsc) = timeout c /\ Discipline_interruptInterval dsc = interval c /\
   nvals (Discipline_join dsc) (buf s) /\ G_dsc_passAt g = passAt s /\ unrel s = false /\
   match pc s with
-  | Sending b own why k => nvals (G_send_item g) b /\ b = buf s /\ why = Full /\ k = Join.KLoop
-  | AwaitRel k => k = Join.KLoop
+  | Sending b own why k => nvals (G_send_item g) b /\ b = buf s /\ b <> [] /\ own = true /\ why = w /\ k = kont_of w /\ cause_ok md w
+  | AwaitRel k => k = kont_of w /\ cause_ok md w /\ buf s <> []
   | _ => True
   end.
 
 Definition R (s : jst) (cf : cfgT) : Prop :=
-  exists dsc g w, cf = ((dsc, g, w), stack (pc s)) /\ rel s dsc g.
+  exists dsc g n w, cf = ((dsc, g, n), stack md (pc s) w) /\ rel s dsc g w.
 
 Definition jrequest (s : jst) (g : G) : request payload chan_id :=
   match pc s with
-  | Loop => RqSelect [(CTick, None); (CInput, None)] false
+  | Loop => match md with MT => RqSelect [(CTick, None); (CInput, None)] false | MU => RqRecv CInput end
   | Sending _ _ _ _ => RqSend COutput (PList (G_send_item g))
   | AwaitRel _ => RqRecv CRelease
   | Closed => RqDone
   end.
 
-Theorem blocked s dsc g w : step1 table ((dsc, g, w), stack (pc s)) = Block (jrequest s g).
-Proof. unfold jrequest. destruct (pc s); reflexivity. Qed.
+Theorem blocked s dsc g n w : step1 table ((dsc, g, n), stack md (pc s) w) = Block (jrequest s g).
+Proof. unfold jrequest. destruct (pc s); try reflexivity. destruct md; reflexivity. Qed.
 
 Ltac step tac := eapply r_step; [cbn; try tac; reflexivity|].
 Ltac runto tac := first [apply r_refl | step tac; runto tac].
 Ltac runblock tac := first [eapply r_step; [cbn; try tac; reflexivity|]; runblock tac | apply r_refl].
+(* one request with its answer *)
+Ltac ans tac := eexists _, _; split; [runblock tac|]; split; [reflexivity|]; cbn [GoConc.resume].
 
 Lemma nvals_app l b x t : nvals l b -> nvals (l ++ [x]) (b ++ [(Z.of_N x, t)]).
 Proof.
@@ -88,38 +118,296 @@ Proof.
 Qed.
 Lemma nvals_len l b : nvals l b -> length b = length l.
 Proof. unfold nvals. intros H. apply (f_equal (@length Z)) in H. now rewrite !map_length in H. Qed.
-
+Lemma nvals_nil : nvals [] [].                                    Proof. reflexivity. Qed.
 Lemma prepareItem_id w dsc item : gen_prepareItem w dsc item = (w, dsc, item).
 Proof. unfold gen_prepareItem. cbn. destruct (Opts_NoCopy (Discipline_opts dsc)); reflexivity. Qed.
+Lemma resetJoin_eq w dsc : gen_resetJoin w dsc = (w, set_Discipline_join [] dsc, tt).
+Proof. reflexivity. Qed.
+Lemma len_eq0 l (b : list elem) : nvals l b -> (len l =? 0)%N = match b with [] => true | _ => false end.
+Proof. intros H. apply nvals_len in H. unfold len. destruct l, b; cbn in *; try discriminate; reflexivity. Qed.
 
-(* ---- Loop, an element arrives (taken at time t): appended; Loop again, or the buffer is full: on to the send *)
-Lemma sim_in s t x cf :
-  R s cf -> pc s = Loop ->
-  exists cf', reachesJ (GoConc.resume cf (AnsSel 1 (Some (PN x)))) cf' /\
-              R (process c s t [(Z.of_N x, t)]) cf'.
+(* what the environment still answers after the last pass(): the two deferred closes of main() *)
+Definition closing (w : cause) : list (answer payload) := match w with Final => [AnsOk; AnsOk] | _ => [] end.
+(* the model state after pass() has returned at time t *)
+Definition after (s : jst) (w : cause) (t : Z) : jst := Join.resume s (kont_of w) t.
+
+(* ---- pass() is entered with a non-empty buffer: on to the send *)
+Lemma pass_nonempty s dsc g n w :
+  rel (set_pc s Loop) dsc g w -> buf s <> [] -> cause_ok md w ->
+  exists cf', reachesJ ((dsc, g, n), KSeq body_pass :: GoConc.KCall [] :: passCont md w) cf' /\
+              R (set_pc s (Sending (buf s) true w (kont_of w))) cf'.
 Proof.
-  intros (dsc & g & w & -> & HJ & HN & HT & Hb & HP & HU & _) Epc. rewrite Epc.
+  intros (HJ & HN & HT & HI & Hb & HP & HU & _) Hne Hok. cbn in *.
+  pose proof (len_eq0 _ _ Hb) as H0. destruct (buf s) as [|e0 b0] eqn:Eb; [congruence|]. rewrite <- Eb in *.
+  eexists (_, stack md (Sending (buf s) true w (kont_of w)) w). split.
+  - unfold stack, sendK, passK. runto ltac:(rewrite ?H0, ?prepareItem_id).
+  - eexists _, _, _, w. split; [reflexivity|]. unfold rel. cbn. repeat split; try assumption; try congruence.
+Qed.
+
+(* ---- pass() returns (after the send, or at once with an empty buffer): passAt is reset -- the clock is read at the time t of
+   the event --, then Loop again, or (the deferred pass at the end) main() returns: release and output are closed *)
+Lemma pass_finish s dsc g n w t :
+  rel (set_pc s Loop) dsc g w -> cause_ok md w ->
+  exists cf', movesJ (AnsTime t :: closing w) ((dsc, g, n), passK md w (skipn 3 body_pass)) cf' /\ R (after s w t) cf'.
+Proof.
+  intros (HJ & HN & HT & HI & Hb & HP & HU & _) Hok. cbn in *. unfold after.
+  destruct w; try (destruct md; contradiction); cbn [kont_of Join.resume closing movesJ].
+  - (* Full *) eexists (_, stack md Loop Full). split.
+    + unfold passK, passCont, stack. destruct md; (ans idtac; runto idtac).
+    + eexists _, _, _, Full. split; [reflexivity|]. unfold rel. cbn. repeat split; try assumption.
+  - (* Timeout *) destruct md eqn:Em; [|contradiction]. eexists (_, stack MT Loop Timeout). split.
+    + unfold passK, passCont, stack. ans idtac. runto idtac.
+    + eexists _, _, _, Timeout. rewrite Em. split; [reflexivity|]. unfold rel. cbn. repeat split; try assumption.
+  - (* Final *) eexists (_, []). split.
+    + unfold passK, passCont, mainK. destruct md; (ans idtac; ans idtac; ans idtac; runblock idtac).
+    + eexists _, _, _, Final. split; [reflexivity|]. unfold rel. cbn. repeat split; try assumption.
+Qed.
+
+Lemma pass_empty s dsc g n w t :
+  rel (set_pc s Loop) dsc g w -> buf s = [] -> cause_ok md w ->
+  exists cf', movesJ (AnsTime t :: closing w) ((dsc, g, n), KSeq body_pass :: GoConc.KCall [] :: passCont md w) cf' /\
+              R (after s w t) cf'.
+Proof.
+  intros (HJ & HN & HT & HI & Hb & HP & HU & _) Hemp Hok. cbn in *. unfold after.
+  pose proof (len_eq0 _ _ Hb) as H0. rewrite Hemp in H0.
+  destruct w; try (destruct md; contradiction); cbn [kont_of Join.resume closing movesJ].
+  - eexists (_, stack md Loop Full). split.
+    + unfold passCont, stack. destruct md; (ans ltac:(rewrite ?H0); runto idtac).
+    + eexists _, _, _, Full. split; [reflexivity|]. unfold rel. cbn. rewrite Hemp in Hb. repeat split; assumption.
+  - destruct md eqn:Em; [|contradiction]. eexists (_, stack MT Loop Timeout). split.
+    + unfold passCont, stack. ans ltac:(rewrite ?H0). runto idtac.
+    + eexists _, _, _, Timeout. rewrite Em. split; [reflexivity|]. unfold rel. cbn. rewrite Hemp in Hb. repeat split; assumption.
+  - eexists (_, []). split.
+    + unfold passCont, mainK. destruct md; (ans ltac:(rewrite ?H0); ans idtac; ans idtac; runblock idtac).
+    + eexists _, _, _, Final. split; [reflexivity|]. unfold rel. cbn. rewrite Hemp in Hb. repeat split; assumption.
+Qed.
+
+Lemma do_pass_nonempty s b w k t : b <> [] ->
+  do_pass s b w k t = {| buf := b; passAt := passAt s; pc := Sending b true w k; unrel := unrel s; stopped := stopped s |}.
+Proof. destruct b; [congruence|reflexivity]. Qed.
+
+Definition passEntry (w : cause) : list frameT := KSeq body_pass :: GoConc.KCall [] :: passCont md w.
+Definition ans_in (x : N) : answer payload := match md with MT => AnsSel 1 (Some (PN x)) | MU => AnsRecv (Some (PN x)) end.
+Definition ans_close : answer payload := match md with MT => AnsSel 1 None | MU => AnsRecv None end.
+
+(* ---- Loop, an element arrives: appended; Loop again, or the buffer is full: pass(), on to the send *)
+Lemma sim_in s t t' x cf :
+  R s cf -> pc s = Loop ->
+  exists cf', reachesJ (GoConc.resume cf (ans_in x)) cf' /\ R (process c s t [(Z.of_N x, t')]) cf'.
+Proof.
+  intros (dsc & g & n & w & -> & HJ & HN & HT & HI & Hb & HP & HU & _) Epc. rewrite Epc.
   unfold process, is_unite. rewrite Hv.
-  pose proof (nvals_app _ _ x t Hb) as Hb'. pose proof (nvals_len _ _ Hb') as Hl.
+  pose proof (nvals_app _ _ x t' Hb) as Hb'. pose proof (nvals_len _ _ Hb') as Hl.
   assert (Hcmp : (len (Discipline_join dsc ++ [x]) <? Opts_JoinSize (Discipline_opts dsc))%N =
-                 negb (jsize c <=? length (buf s ++ [(Z.of_N x, t)]))%nat).
-  { rewrite Hl, <- HJ. unfold len. destruct (N.ltb_spec (N.of_nat (length (Discipline_join dsc ++ [x]))) (Opts_JoinSize (Discipline_opts dsc)));
+                 negb (jsize c <=? length (buf s ++ [(Z.of_N x, t')]))%nat).
+  { rewrite Hl, <- HJ. unfold len.
+    destruct (N.ltb_spec (N.of_nat (length (Discipline_join dsc ++ [x]))) (Opts_JoinSize (Discipline_opts dsc)));
       destruct (Nat.leb_spec (N.to_nat (Opts_JoinSize (Discipline_opts dsc))) (length (Discipline_join dsc ++ [x]))); try reflexivity; lia. }
-  destruct (jsize c <=? length (buf s ++ [(Z.of_N x, t)]))%nat eqn:E; cbn in Hcmp.
-  - (* full: pass() -> send() *)
-    unfold do_pass. destruct (buf s ++ [(Z.of_N x, t)]) as [|e0 b0] eqn:Eb; [destruct (buf s); discriminate|]. rewrite <- Eb in *.
-    assert (Hne : (len (Discipline_join dsc ++ [x]) =? 0)%N = false).
-    { apply N.eqb_neq. unfold len. rewrite app_length. cbn. lia. }
-    eexists (_, stack (Sending (buf s ++ [(Z.of_N x, t)]) true Full Join.KLoop)). split.
-    + unfold stack. cbn [GoConc.resume loopK wbody loopW at_ nth body_loop nth_error].
-      runto ltac:(rewrite ?Hcmp, ?Hne, ?prepareItem_id).
-    + eexists _, _, _. split; [reflexivity|]. unfold rel. cbn. repeat split; assumption.
-  - eexists (_, stack Loop). split.
-    + unfold stack. cbn [GoConc.resume loopK wbody loopW at_ nth body_loop nth_error].
-      step idtac. runto ltac:(rewrite ?Hcmp).
-    + eexists _, _, _. split; [reflexivity|]. unfold rel. cbn. repeat split; assumption.
+  destruct (jsize c <=? length (buf s ++ [(Z.of_N x, t')]))%nat eqn:E; cbn in Hcmp.
+  - (* full *)
+    set (s1 := {| buf := buf s ++ [(Z.of_N x, t')]; passAt := passAt s; pc := Loop; unrel := unrel s; stopped := stopped s |}).
+    assert (Hne : buf s1 <> []) by (cbn; destruct (buf s); discriminate).
+    assert (Hok : cause_ok md Full) by (destruct md; exact I).
+    assert (Hpre : exists dsc' g' n', reachesJ (GoConc.resume ((dsc, g, n), stack md Loop w) (ans_in x)) ((dsc', g', n'), passEntry Full) /\
+                                      rel (set_pc s1 Loop) dsc' g' Full).
+    { unfold stack, ans_in, passEntry, passCont. destruct md; eexists _, _, _;
+        (split; [cbn [GoConc.resume loopK wbody loopW luW at_ nth body_loop body_loopUntimeouted nth_error]; runto ltac:(rewrite ?Hcmp)
+                |unfold rel; cbn; repeat split; assumption]). }
+    destruct Hpre as (dsc' & g' & n' & Hr & Hrel).
+    destruct (pass_nonempty s1 dsc' g' n' Full Hrel Hne Hok) as (cf' & H1 & H2).
+    exists cf'. split; [eapply reaches_trans; eassumption|].
+    rewrite do_pass_nonempty by exact Hne. exact H2.
+  - unfold R, ans_in. destruct md.
+    + eexists (_, stack MT Loop w). split.
+      * unfold stack. cbn [GoConc.resume loopK wbody loopW at_ nth body_loop nth_error]. step idtac. runto ltac:(rewrite ?Hcmp).
+      * eexists _, _, _, w. split; [reflexivity|]. unfold rel. cbn. repeat split; assumption.
+    + eexists (_, stack MU Loop w). split.
+      * unfold stack. cbn [GoConc.resume loopK wbody luW at_ nth body_loopUntimeouted nth_error]. step idtac. runto ltac:(rewrite ?Hcmp).
+      * eexists _, _, _, w. split; [reflexivity|]. unfold rel. cbn. repeat split; assumption.
+Qed.
+
+Lemma moves_app l1 : forall l2 a b d, movesJ l1 a b -> movesJ l2 b d -> movesJ (l1 ++ l2) a d.
+Proof.
+  induction l1 as [|x l1 IH]; intros l2 a b d M1 M2; cbn in *.
+  - eapply moves_reaches; eauto.
+  - destruct M1 as (cb & rq & H1 & H2 & H3). exists cb, rq. split; [exact H1|]. split; [exact H2|]. eapply IH; eauto.
+Qed.
+Lemma do_pass_empty s w k t : do_pass s [] w k t = Join.resume s k t.
+Proof. reflexivity. Qed.
+Lemma set_pc_loop s : pc s = Loop -> set_pc s Loop = s.
+Proof. intros E. destruct s; cbn in *; now subst. Qed.
+
+(* pass() is called with the buffer of s (the pc of s is Loop): what the environment answers, and the model state *)
+Definition pass_answers (s : jst) (w : cause) (t : Z) : list (answer payload) :=
+  match buf s with [] => AnsTime t :: closing w | _ => [] end.
+Lemma pass_call s dsc g n w t :
+  pc s = Loop -> rel s dsc g w -> cause_ok md w ->
+  exists cf', movesJ (pass_answers s w t) ((dsc, g, n), passEntry w) cf' /\ R (do_pass s (buf s) w (kont_of w) t) cf'.
+Proof.
+  intros Epc Hrel Hok. unfold pass_answers, passEntry. rewrite <- (set_pc_loop s Epc) in Hrel.
+  destruct (buf s) as [|e0 b0] eqn:Eb.
+  - destruct (pass_empty s dsc g n w t Hrel Eb Hok) as (cf' & H1 & H2). exists cf'. split; [exact H1|exact H2].
+  - assert (Hne : buf s <> []) by congruence.
+    destruct (pass_nonempty s dsc g n w Hrel Hne Hok) as (cf' & H1 & H2). exists cf'. split; [exact H1|].
+    rewrite do_pass_nonempty by congruence. unfold set_pc in H2. rewrite Eb in H2. exact H2.
+Qed.
+
+(* ---- Loop, a tick (loop() only): the clock is read (at the time t of the event); no timeout: Loop; timeout: pass() *)
+Lemma sim_tick s t cf :
+  R s cf -> pc s = Loop -> md = MT -> i_range (t - passAt s) ->
+  exists cf', movesJ (AnsTime t :: (if timeout c <=? t - passAt s then pass_answers s Timeout t else []))
+                     (GoConc.resume cf (AnsSel 0 None)) cf' /\
+              R (if timeout c <=? t - passAt s then do_pass s (buf s) Timeout Join.KLoop t else s) cf'.
+Proof.
+  intros (dsc & g & n & w & -> & Hrel) Epc Em Hr. rewrite Epc, Em in *.
+  pose proof Hrel as (HJ & HN & HT & HI & Hb & HP & HU & _).
+  destruct (timeout c <=? t - passAt s) eqn:E.
+  - assert (Hpre : exists dsc' g' n', movesJ [AnsTime t] (GoConc.resume ((dsc, g, n), stack MT Loop w) (AnsSel 0 None))
+                                              ((dsc', g', n'), passEntry Timeout) /\ rel s dsc' g' Timeout).
+    { eexists _, _, _. split.
+      - unfold stack, passEntry, passCont. rewrite ?Em. cbn [GoConc.resume loopK wbody loopW at_ nth body_loop nth_error movesJ].
+        ans idtac. runto ltac:(rewrite ?HP, ?HT, ?(i_sub_small t (passAt s) Hr), ?E).
+      - unfold rel in *. rewrite Epc in *. cbn. repeat split; assumption. }
+    destruct Hpre as (dsc' & g' & n' & Hm & Hrel').
+    assert (Hok : cause_ok md Timeout) by (rewrite Em; exact I).
+    destruct (pass_call s dsc' g' n' Timeout t Epc Hrel' Hok) as (cf' & H1 & H2).
+    exists cf'. split; [|exact H2]. change (AnsTime t :: pass_answers s Timeout t) with ([AnsTime t] ++ pass_answers s Timeout t).
+    eapply moves_app; eassumption.
+  - eexists (_, stack MT Loop w). split.
+    + unfold stack. cbn [GoConc.resume loopK wbody loopW at_ nth body_loop nth_error movesJ].
+      ans idtac. runto ltac:(rewrite ?HP, ?HT, ?(i_sub_small t (passAt s) Hr), ?E).
+    + unfold R. rewrite Em, Epc. eexists _, _, _, w. split; [reflexivity|].
+      unfold rel in *. rewrite Epc in *. cbn. repeat split; assumption.
+Qed.
+
+(* ---- Loop, the input is closed: loop() returns (its ticker is stopped), the deferred pass() *)
+Definition close_prefix : list (answer payload) := match md with MT => [AnsOk] | MU => [] end.
+Lemma sim_close s t cf :
+  R s cf -> pc s = Loop ->
+  exists cf', movesJ (close_prefix ++ pass_answers s Final t) (GoConc.resume cf ans_close) cf' /\
+              R (do_pass s (buf s) Final KClose t) cf'.
+Proof.
+  intros (dsc & g & n & w & -> & Hrel) Epc. rewrite Epc in *.
+  pose proof Hrel as (HJ & HN & HT & HI & Hb & HP & HU & _).
+  assert (Hpre : exists dsc' g' n', movesJ close_prefix (GoConc.resume ((dsc, g, n), stack md Loop w) ans_close)
+                                            ((dsc', g', n'), passEntry Final) /\ rel s dsc' g' Final).
+  { unfold stack, passEntry, passCont, close_prefix, ans_close. destruct md; eexists _, _, _.
+    - split; [cbn [GoConc.resume loopK wbody loopW at_ nth body_loop nth_error movesJ]; ans idtac; runto idtac|].
+      unfold rel in *. rewrite Epc in *. cbn. repeat split; assumption.
+    - split; [cbn [GoConc.resume loopK wbody luW at_ nth body_loopUntimeouted nth_error movesJ]; runto idtac|].
+      unfold rel in *. rewrite Epc in *. cbn. repeat split; assumption. }
+  destruct Hpre as (dsc' & g' & n' & Hm & Hrel').
+  assert (Hok : cause_ok md Final) by (destruct md; exact I).
+  destruct (pass_call s dsc' g' n' Final t Epc Hrel' Hok) as (cf' & H1 & H2).
+  exists cf'. split; [eapply moves_app; eassumption|exact H2].
+Qed.
+
+(* ---- Sending, the write completes: no-copy mode waits for the release; otherwise pass() finishes *)
+Lemma sim_out s t b own why k cf :
+  R s cf -> pc s = Sending b own why k ->
+  exists cf', movesJ (if nocopy c then [] else AnsTime t :: closing why) (GoConc.resume cf AnsOk) cf' /\
+              R (if nocopy c then set_pc s (AwaitRel k) else Join.resume s k t) cf'.
+Proof.
+  intros (dsc & g & n & w & -> & Hrel) Epc. rewrite Epc in *.
+  pose proof Hrel as (HJ & HN & HT & HI & Hb & HP & HU & Hs). rewrite Epc in Hs.
+  destruct Hs as (Hsi & Hbb & Hne & Hown & Hw & Hk & Hok). subst why k own.
+  destruct (nocopy c) eqn:Enc.
+  - eexists (_, stack md (AwaitRel (kont_of w)) w). split.
+    + unfold stack, sendK. cbn [GoConc.resume movesJ]. runto ltac:(rewrite ?HN, ?Enc).
+    + eexists _, _, _, w. split; [reflexivity|]. unfold rel. cbn. subst b. repeat split; try assumption; try reflexivity; try (rewrite Enc; assumption).
+  - assert (Hpre : reachesJ (GoConc.resume ((dsc, g, n), stack md (Sending b true w (kont_of w)) w) AnsOk)
+                            ((dsc, g, n), passK md w (skipn 3 body_pass))).
+    { unfold stack, sendK. cbn [GoConc.resume]. runto ltac:(rewrite ?HN, ?Enc). }
+    assert (Hrel' : rel (set_pc s Loop) dsc g w) by (unfold rel; cbn; repeat split; try assumption; rewrite Enc; assumption).
+    destruct (pass_finish s dsc g n w t Hrel' Hok) as (cf' & H1 & H2).
+    exists cf'. split; [eapply moves_reaches; eassumption|exact H2].
+Qed.
+
+(* ---- AwaitRel, the release signal: pass() finishes *)
+Lemma sim_rel s t k v cf :
+  R s cf -> pc s = AwaitRel k ->
+  exists cf', movesJ (AnsTime t :: match k with KClose => [AnsOk; AnsOk] | _ => [] end) (GoConc.resume cf (AnsRecv v)) cf' /\
+              R (Join.resume s k t) cf'.
+Proof.
+  intros (dsc & g & n & w & -> & Hrel) Epc. rewrite Epc in *.
+  pose proof Hrel as (HJ & HN & HT & HI & Hb & HP & HU & Hs). rewrite Epc in Hs. destruct Hs as (Hk & Hok & Hne). subst k.
+  assert (Hpre : reachesJ (GoConc.resume ((dsc, g, n), stack md (AwaitRel (kont_of w)) w) (AnsRecv v))
+                          ((dsc, g, n), passK md w (skipn 3 body_pass))).
+  { unfold stack, sendK. cbn [GoConc.resume if_then at_ nth body_send]. runto idtac. }
+  assert (Hrel' : rel (set_pc s Loop) dsc g w) by (unfold rel; cbn; repeat split; assumption).
+  destruct (pass_finish s dsc g n w t Hrel' Hok) as (cf' & H1 & H2).
+  exists cf'. split; [|exact H2].
+  replace (match kont_of w with KClose => [AnsOk; AnsOk] | _ => [] end) with (closing w) by (destruct w; reflexivity).
+  eapply moves_reaches; eassumption.
+Qed.
+
+(* ---- the start: New() has set passAt (t0) and the buffer is empty; `go dsc.main()` registers the two deferred closes, enters
+   loop() (makes the ticker) or loopUntimeouted(), and waits *)
+Definition init_answers : list (answer payload) := match md with MT => [AnsOk] | MU => [] end.
+Theorem conc_init t0 dsc g n :
+  N.to_nat (Opts_JoinSize (Discipline_opts dsc)) = jsize c -> Opts_NoCopy (Discipline_opts dsc) = nocopy c ->
+  Opts_Timeout (Discipline_opts dsc) = timeout c -> Discipline_interruptInterval dsc = interval c ->
+  Discipline_join dsc = [] -> G_dsc_passAt g = t0 ->
+  exists cf', movesJ init_answers (start table (dsc, g, n) F_main) cf' /\ R (jinit t0) cf'.
+Proof.
+  intros HJ HN HT HI Hj HP. unfold init_answers, R, md. rewrite <- HI.
+  destruct (Discipline_interruptInterval dsc =? 0) eqn:E.
+  - eexists (_, stack MU Loop Full). split.
+    + unfold start, stack. cbn [movesJ]. runto ltac:(rewrite ?E).
+    + eexists _, _, _, Full. split; [reflexivity|]. unfold rel. cbn. rewrite Hj. repeat split; try assumption; try reflexivity.
+  - eexists (_, stack MT Loop Full). split.
+    + unfold start, stack. cbn [movesJ]. ans ltac:(rewrite ?E). runto idtac.
+    + eexists _, _, _, Full. split; [reflexivity|]. unfold rel. cbn. rewrite Hj. repeat split; try assumption; try reflexivity.
+Qed.
+
+(* ==== main tie theorems ==== *)
+
+(* the answers that an event of the model stands for *)
+Definition janswers (s : jst) (e : jev) : list (answer payload) :=
+  match pc s, e with
+  | Loop, In _ [(v, _)] => [ans_in (Z.to_N v)]
+  | Loop, Tick t =>
+      AnsSel 0 None :: AnsTime t :: (if timeout c <=? t - passAt s then pass_answers s Timeout t else [])
+  | Loop, CloseIn t => ans_close :: close_prefix ++ pass_answers s Final t
+  | Sending _ _ why _, Out t => AnsOk :: (if nocopy c then [] else AnsTime t :: closing why)
+  | AwaitRel k, Rel t => AnsRecv (Some (PN 0%N)) :: AnsTime t :: match k with KClose => [AnsOk; AnsOk] | _ => [] end
+  | _, _ => []
+  end.
+
+(* every step of Join.jstep (variant JoinV2) is a move of the generated program.  An arriving item is one element with a
+   non-negative value (the item type is N here); the Duration subtraction of isTimeouted() must not overflow. *)
+Theorem conc_simulates_jstep s e s' out cf :
+  R s cf -> jstep c s e = Some (s', out) ->
+  (forall t xs, e = In t xs -> exists x t', xs = [(Z.of_N x, t')]) ->
+  (forall t, e = Tick t -> i_range (t - passAt s)) ->
+  exists cf', movesJ (janswers s e) cf cf' /\ R s' cf'.
+Proof.
+  intros HR Hs Hin Htick.
+  pose proof HR as (dsc & g & n & w & Ecf & Hrel). pose proof Hrel as (_ & _ & _ & _ & _ & _ & HU & _).
+  pose proof (blocked s dsc g n w) as Hb. rewrite <- Ecf in Hb.
+  assert (Hv1 : is_v1 c = false) by (unfold is_v1; now rewrite Hv).
+  unfold jstep in Hs. rewrite HU, Hv1 in Hs. unfold janswers.
+  destruct (pc s) eqn:Epc; destruct e; cbn in Hs; try discriminate.
+  - (* In *) injection Hs as <- <-. destruct (Hin t xs eq_refl) as (x & t' & ->). rewrite N2Z.id.
+    destruct (sim_in s t t' x cf HR Epc) as (cf' & H1 & H2).
+    exists cf'. split; [|exact H2]. cbn. eexists _, _. split; [apply r_refl|]. split; [exact Hb|exact H1].
+  - (* Tick *) destruct (interval c <=? 0) eqn:Ei; [discriminate|].
+    assert (Em : md = MT). { unfold md. apply Z.leb_gt in Ei. destruct (Z.eqb_spec (interval c) 0); [lia|reflexivity]. }
+    destruct (sim_tick s t cf HR Epc Em (Htick t eq_refl)) as (cf' & H1 & H2).
+    destruct (timeout c <=? t - passAt s); injection Hs as <- <-; (exists cf'; split; [|exact H2]);
+      cbn [movesJ]; eexists _, _; (split; [apply r_refl|]); (split; [exact Hb|exact H1]).
+  - (* CloseIn *) injection Hs as <- <-.
+    destruct (sim_close s t cf HR Epc) as (cf' & H1 & H2).
+    exists cf'. split; [|exact H2]. cbn [movesJ]. eexists _, _. split; [apply r_refl|]. split; [exact Hb|exact H1].
+  - (* Out *) destruct (sim_out s t s0 own why k cf HR Epc) as (cf' & H1 & H2).
+    destruct (nocopy c); injection Hs as <- <-; (exists cf'; split; [|exact H2]);
+      cbn [movesJ]; eexists _, _; (split; [apply r_refl|]); (split; [exact Hb|exact H1]).
+  - (* Rel *) injection Hs as <- <-.
+    destruct (sim_rel s t k (Some (PN 0%N)) cf HR Epc) as (cf' & H1 & H2).
+    exists cf'. split; [|exact H2]. cbn [movesJ]. eexists _, _. split; [apply r_refl|]. split; [exact Hb|exact H1].
 Qed.
 End Sim.
 
 Print Assumptions blocked.
-Print Assumptions sim_in.
+Print Assumptions conc_init.
+Print Assumptions conc_simulates_jstep.
